@@ -196,9 +196,19 @@ theorem F64_Int_Div_eq (M P a b : W) (hb : b.toInt ≠ 0) :
     F64.div M.toInt a.toInt b.toInt = some (Gen.F64_Int_Div M P a b).toInt := by
   fx_tie [F64.div, if_neg hb]
 when_translated Gen.F64_Int_Mod in
-theorem F64_Int_Mod_eq (M P a b : W) (hM : Mult M.toInt) (hb : b.toInt ≠ 0) :
+/-- `Mod` (now `f % value`) is the truncated remainder `a − b·trunc(a/b)` of the raw values for every non-zero divisor,
+    with no hypothesis on an intermediate product — stated as the specification -/
+theorem F64_Int_Mod_spec (M P a b : W) (hb : b.toInt ≠ 0) :
+    (Gen.F64_Int_Mod M P a b).toInt = a.toInt.tmod b.toInt := by
+  fx_tie []
+
+when_translated Gen.F64_Int_Mod in
+/-- … and it is the model function `F64.mod` (`Model/Fixed.lean`, the same definition the driver runs) -/
+theorem F64_Int_Mod_eq (M P a b : W) (hb : b.toInt ≠ 0) :
     F64.mod M.toInt a.toInt b.toInt = some (Gen.F64_Int_Mod M P a b).toInt := by
-  fx_tie [F64.mod, F64.div, F64.mul, F64.trunc, if_neg hb] using hM (Gen.F64_Int_Div M P a b)
+  rw [F64_Int_Mod_spec M P a b hb]
+  unfold F64.mod F64.rem
+  rw [if_neg hb, wrap64_of_fits (fits64_tmod (GenTieFixed.fits_toInt a))]
 
 /-! ## f64: Trunc, Ceil, Round -/
 
